@@ -42,8 +42,8 @@ func init() {
 			{Name: "read-faults", Fn: scnC15Faults, Weight: 3, Group: 16},
 		},
 		Rule: "boundary: records of 2-3 kernel events (<=4 records each) interleaved in a taped merge order that keeps per-event order, EOE- and PROCTITLE-terminated groups and groups with neither (complete only by the reassembler's time-out), empty lines, arriving after a taped quiet period of 0-3 simulated seconds, fed to the real parseAuditLogs + reassembler + reassembler callback around a counting correlator; " +
-			"read-faults: audit streams for bound sessions through the real Read with one fault enumerated within each group of runs: malformed line at position p, write error at the k-th event, invalid login {pid 0, nil source, empty credential} at a taped point (for a PID nothing is known about, or for a session that is already waiting for its login), " +
-			"unparsable PID in a LOGIN record, two failures in one run, a single transient write failure at the k-th event of a hold-queue flush; non-trivial = records of different events were interleaved (boundary) or the fault fired before the end of the stream (faults); distinct = distinct (stream hash, fault, position, schedule hash)",
+			"read-faults: audit streams for bound sessions through the real Read with one fault enumerated within each group of runs: malformed line at position p, write error from the k-th event on or at the k-th event only, invalid login {pid 0, nil source, empty credential} at a taped point (for a PID nothing is known about, or for a session that is already waiting for its login), " +
+			"unparsable PID in a LOGIN record, two failures in one run, no fault (half of these with the records of one compound event arriving in two bursts 0.3-0.8 reassembler time-outs apart around a record of another event), a single transient write failure at the k-th event of a hold-queue flush; non-trivial = records of different events were interleaved (boundary) or the fault fired before the end of the stream (faults); distinct = distinct (stream hash, fault, position, schedule hash)",
 		Quick: 8000, Thorough: 200000,
 	})
 }
@@ -254,6 +254,21 @@ func scnC14At(rc *RunCtx, level int) {
 	rc.Cleanup(func() { p.teardown() })
 }
 
+// extraMatches compares the metadata of an emitted UserAction with what aucoalesce yields for
+// all the records of the kernel event.
+func extraMatches(ce *aucoalesce.Event, e *OutEvent) (want, got string, same bool) {
+	w := map[string]any{"action": ce.Summary.Action, "how": ce.Summary.How, "object": ce.Summary.Object}
+	if len(ce.Process.Args) > 0 {
+		w["process_args"] = ce.Process.Args
+	}
+	wj, _ := json.Marshal(w)
+	gj, _ := json.Marshal(e.Extra)
+	var wn, gn any
+	json.Unmarshal(wj, &wn)
+	json.Unmarshal(gj, &gn)
+	return string(wj), string(gj), reflect.DeepEqual(wn, gn)
+}
+
 // ---- C15 (a): reassembler -> correlator boundary ----
 
 type countingAuditor struct {
@@ -358,8 +373,9 @@ func scnC15Boundary(rc *RunCtx) {
 		}
 	}
 	pipelinePolicy(rc)
-	// run until everything is consumed, then 3 simulated seconds for time-outs
-	for i := 0; i < 40; i++ {
+	// run until everything is consumed, then the reassembler's own time-out plus two maintenance
+	// intervals (and a margin) for groups that only the time-out completes
+	for i, n := 0, int((timeout+2*interval)/(100*time.Millisecond))+15; i < n; i++ {
 		if why := rc.Sim.RunUntil(func() bool { return res.v }, 200000); why == "budget" || why == "stop" {
 			break
 		}
@@ -411,7 +427,7 @@ func scnC15Boundary(rc *RunCtx) {
 
 var c15Faults = []string{"malformed-line", "malformed-line", "malformed-line", "write-error", "write-error", "write-error",
 	"invalid-login-pid0", "invalid-login-nil-source", "invalid-login-empty-cred", "bad-pid-in-login-record", "two-failures", "none",
-	"malformed-line", "write-error", "flush-transient-write-error", "flush-transient-write-error"}
+	"malformed-line", "write-error-once", "flush-transient-write-error", "flush-transient-write-error"}
 
 func scnC15Faults(rc *RunCtx) {
 	t := rc.Spec
@@ -464,9 +480,10 @@ func scnC15Faults(rc *RunCtx) {
 			}
 		}
 		rc.Sim.Count("line.malformed_audit")
-	case "write-error":
+	case "write-error", "write-error-once":
+		// persistent (every write from the k-th on fails) or a single failing write
 		rec.FailAt = 1 + t.Choose(len(evs), "k")
-		rec.FailAll = true
+		rec.FailAll = fault == "write-error"
 		wantEvents = rec.FailAt - 1
 	case "bad-pid-in-login-record":
 		// a second session whose LOGIN record has an unparsable PID
@@ -491,7 +508,39 @@ func scnC15Faults(rc *RunCtx) {
 		lines = append(append([]string{}, waiting.Lines...), lines...)
 		rc.Sim.Count("login.invalid.for-waiting-session")
 	}
-	for _, l := range lines {
+	// fault-free runs: in half of them the records of one compound event arrive in two bursts,
+	// separated by a pause well inside the reassembler's time-out, with a record of another
+	// event of the session in between
+	pauseAt, pause := -1, time.Duration(0)
+	if fault == "none" && t.Choose(2, "none.pause") == 1 {
+		var cand []int
+		for i, e := range evs {
+			if e.NRec >= 3 {
+				cand = append(cand, i)
+			}
+		}
+		if len(cand) > 0 {
+			j := cand[t.Choose(len(cand), "none.pause.ev")]
+			cut := evEnd[j] - evs[j].NRec + 1 + t.Choose(evs[j].NRec-1, "none.pause.cut")
+			_, timeout, _ := auditd.SimReassemblerParams()
+			pause = timeout*3/10 + time.Duration(t.Choose(int(timeout/2/time.Millisecond), "none.pause.ms"))*time.Millisecond
+			other := k.UserMsg("USER_START", "410", pid, 1000, true, 0)
+			evs = append(evs, other)
+			lines = append(lines[:cut], append([]string{other.Lines[0]}, lines[cut:]...)...)
+			pauseAt = cut
+			rc.Sim.Count("c15.group_split_by_pause")
+		}
+	}
+	for i, l := range lines {
+		if i == pauseAt {
+			rc.Sim.Policy = simrt.PolicyRunToBlock
+			runToStepOrState(rc, func() bool { return res.v || len(audits) == 0 }, -1, 2000)
+			for el := time.Duration(0); el < pause && !res.v; el += 100 * time.Millisecond {
+				time.Sleep(100 * time.Millisecond)
+				rc.Sim.RunUntil(func() bool { return res.v }, 50000)
+			}
+			pipelinePolicy(rc)
+		}
 		audits <- l + "\n"
 	}
 	if fault == "flush-transient-write-error" {
@@ -555,10 +604,29 @@ func scnC15Faults(rc *RunCtx) {
 			rc.Fail("C15", "stopped-without-fault", "Read returned %v on a well-formed stream", res.err)
 		} else if len(rec.Events) != len(evs) {
 			rc.Fail("C15", "event-lost", "%d kernel events of a bound session produced %d UserActions", len(evs), len(rec.Events))
+		} else {
+			// every record of a kernel event contributed to the one event handed on: what was
+			// emitted for it is what all its records coalesce to
+			for _, e := range rec.Events {
+				for _, ke := range evs {
+					if !ke.TS.Equal(e.LoggedAt) {
+						continue
+					}
+					ce, err := ke.Coalesce()
+					if err != nil {
+						rc.Abort("world model: %v", err)
+						return
+					}
+					if want, got, same := extraMatches(ce, e); !same {
+						rc.Fail("C15", "records-not-grouped", "kernel event seq %d (%d records, pause of %v inside: %v): emitted with %s, all its records coalesce to %s", ke.Seq, ke.NRec, pause, pauseAt >= 0, got, want)
+						return
+					}
+				}
+			}
 		}
 		return
 	}
-	if !returned && (fault == "write-error" || fault == "flush-transient-write-error") && rec.Calls < rec.FailAt {
+	if !returned && (fault == "write-error" || fault == "write-error-once" || fault == "flush-transient-write-error") && rec.Calls < rec.FailAt {
 		// the write that was to fail never happened: the failure did not occur in this run
 		rc.Sim.Count("c15.fault_not_fired")
 		rc.R.NonTrivial = false
@@ -580,7 +648,7 @@ func scnC15Faults(rc *RunCtx) {
 			rc.Fail("C15", "error-does-not-identify-line", "the error for the unparsable line %q does not contain it: %q", badLine, msg)
 			return
 		}
-	case "write-error", "flush-transient-write-error":
+	case "write-error", "write-error-once", "flush-transient-write-error":
 		var ee *encodeErr
 		if !errors.As(res.err, &ee) {
 			rc.Fail("C15", "wrong-error", "a write failure at event %d stopped Read with %q, which does not wrap the write error", rec.FailAt, msg)
